@@ -129,7 +129,7 @@ PROPS = {
         rule='F_floor scenarios: layered production lines (sources incl. cycle 0 and finite budgets, handlers, processors with resources/callbacks/work orders, buffers with delay and capacity, batchers, decision gates, flow controllers, shared groups reached through several paths, sinks), scripted failures/shutdowns/restores/blocking/capacity changes, many single steps then runs, generated from VERIF_SEED (corpus/floor first); '
              'non-trivial = a gate or group path is present and at least 6 parts were received; distinct by scenario text',
         explanation='Local routing theorems (offers go to exactly the configured downstream neighbours, longest idle first; gates and blocked inputs refuse; history extended by the accepting device; identities preserved). Whole-route history / group path matching decided by the routing monitor and lock-step. PARTIAL.',
-        assumptions=['well-posed layouts', 'nested groups not generated']),
+        assumptions=['well-posed layouts', 'groups nested one level deep at most']),
     'C11': dict(
         vfile='Props/C11.v', ties=['Tie/TieEnv.v', 'Tie/TieFloor.v', 'Tie/TieRM.v'],
         families=[('floor', 400, 12000, 'small', 'large')],
